@@ -247,6 +247,16 @@ func afterFini(r *rig, res *result) {
 		_ = s.Beep()
 		s.CanDisplay('x', true)
 		s.Colors()
+		// the screen is finished: Resume / Suspend must not bring it back to life
+		nb := len(r.tty.blocks)
+		_ = s.Resume()
+		if left := verifrt.Alive(true); len(left) > 0 {
+			res.fail("Resume() after Fini() started library goroutines again: %v", left)
+		}
+		if len(r.tty.blocks) != nb {
+			res.fail("Resume() after Fini() used the closed tty again (%d more calls, e.g. %s %q)", len(r.tty.blocks)-nb, r.tty.blocks[nb].by, r.tty.blocks[nb].data)
+		}
+		_ = s.Suspend()
 	}()
 	// PollEvent must not park: it may hand out events that were queued, then nil
 	spawn("poll-after-fini", func() {
